@@ -51,6 +51,12 @@ def _cells(tier):
         base = dict(process=proc, fns=fns, nfff=nfff, pto=pto, pto_evol=pe, projectile="antineutrino" if proc == "CC" else "positron",
                     ren_sv=sv, fact_sv=sv)
         jobs.append(("ffns", dict(kind=kind, **base)))
+    # the same additivity with target-mass corrections on (the correction is linear in the structure function: each part is corrected with
+    # integrals over ITS OWN uncorrected structure function)
+    for kind, tmc, fns in itertools.product(["F2", "FL", "F3"], [1, 2, 3], ["FFNS", "FFN0"]):
+        if tier == "quick" and (fns == "FFN0" and tmc != 1):
+            continue
+        jobs.append(("ffns", dict(kind=kind, process="NC", fns=fns, nfff=3, pto=1, pto_evol=1, projectile="electron", ren_sv=False, fact_sv=False, tmc=tmc)))
     # zero mass
     for kind, proc, nf, pto in itertools.product(kinds, ["EM", "NC", "CC"], [3, 4, 5, 6], [1, 3] if tier == "quick" else [0, 1, 2, 3]):
         if proc == "CC" and kind in ("g1", "gL", "g4"):
